@@ -682,6 +682,12 @@ class Simple_Reject(Message):
         return self.to_string(details)
 
 
+# Simple_Reject is also instantiated directly by Message.create() for reject messages
+# that have no registered subclass (e.g. Stream End Point Discovery Reject), so it
+# needs its own field list to serialize its error code.
+Simple_Reject.fields = hci.HCI_Object.fields_from_dataclass(Simple_Reject)
+
+
 # -----------------------------------------------------------------------------
 @Message.subclass
 @dataclass
